@@ -239,6 +239,17 @@ func init() {
 		},
 		"internal/stringslite.Clone": func(fr *frame, args []value) value { return args[0] },
 		"strings.Clone":              func(fr *frame, args []value) value { return args[0] },
+		"github.com/qiniu/x/byteutil.Bytes": func(fr *frame, args []value) value {
+			n, at := seqOf(args[0])
+			r := make([]value, n)
+			for k := 0; k < n; k++ {
+				r[k] = at(k)
+			}
+			return r
+		},
+		"github.com/qiniu/x/stringutil.String": func(fr *frame, args []value) value {
+			return fr.i.bytesToString(args[0].([]value))
+		},
 		"unsafe.String":     nil,
 		"unsafe.StringData": nil,
 
